@@ -24,6 +24,15 @@ class Check(PropertyCheck):
     ASSUMPTIONS = ["instances are valid (non-empty duplicate-free machine lists, durations >= 0)"]
     QUICK_N = 300
 
+    def make_impl(self, scenario):
+        if scenario.meta.get("observers"):
+            from impl_ext import ImplEnv
+            impl = ImplEnv(filter_style=scenario.meta.get("filter_style", "callable"))
+        else:
+            from impl import Impl
+            impl = Impl(scenario.meta.get("filter_style", "callable"))
+        return impl
+
     def generate(self, rng, n, tier):
         if tier == "thorough":
             # exhaustive small scope first (every instance <= 2 jobs x 2 operations, durations 0..2, every interleaving)
@@ -33,7 +42,7 @@ class Check(PropertyCheck):
             if _i % 15 == 14:
                 yield slices.zero_first_scenario(rng)
                 continue
-            yield slices.dispatch_scenario(rng, with_invalid=True, replay=True, queries=True,
+            yield slices.dispatch_scenario(rng, observers=True, with_invalid=True, replay=True, queries=True,
                                            max_jobs=4 if tier == "quick" else 5,
                                            max_ops=4 if tier == "quick" else 6)
 
@@ -41,7 +50,13 @@ class Check(PropertyCheck):
         res = []
         d = impl.dispatcher
         if line.startswith("inst"):
-            # a history observer of our own: its record is "the recorded history" the property speaks of
+            ctx["hobs"] = None
+        setup = ("new", "inst", "filter", "fobs", "fres")
+        nxt = scenario.lines[index + 1] if index + 1 < len(scenario.lines) else ""
+        if ctx.get("hobs") is None and d is not None and getattr(d, "instance", None) is not None and \
+                line.startswith(setup[1:]) and not nxt.startswith(setup):
+            # a history observer of our own (subscribed after the scenario's own observers, before the first event): its record
+            # is "the recorded history" the property speaks of
             ctx["hobs"] = jsl.HistoryObserver(d)
             ctx["held"] = ctx["hobs"].history
             ctx["held_copy"] = list(ctx["held"])
